@@ -97,6 +97,20 @@ func timeFeatures(t time.Time) []string {
 	return feats
 }
 
+type c10Wide struct {
+	Old    time.Time
+	A      time.Time
+	Gone   []time.Time
+	At     time.Time
+	Stamps []time.Time
+}
+
+type c10Narrow struct {
+	A      time.Time
+	At     time.Time
+	Stamps []time.Time
+}
+
 type c10Event struct {
 	At time.Time
 	N  int32
@@ -216,7 +230,7 @@ func (c10) Run(c Case, env *Env) Result {
 				continue
 			}
 			res.Evals++
-			res.NT = append(res.NT, Hash64(fmt.Sprintf("shapes|%d|%d|%d", j%4, t.Unix(), t.Nanosecond())))
+			res.NT = append(res.NT, Hash64(fmt.Sprintf("shapes|%d|%d|%d", j%20, t.Unix(), t.Nanosecond())))
 			feats := append(timeFeatures(t), "pos=shapes")
 			cc := c
 			cc.Sub = j
@@ -239,7 +253,25 @@ func (c10) Run(c Case, env *Env) Result {
 			}
 			var o rtOut
 			how := "name and type maps of the value"
-			if classOnly {
+			if j%5 == 4 {
+				// version skew: the sender's class has timestamp fields the receiver's struct lacks; the timestamps
+				// BEHIND the dropped ones must still be exact (whatever wire form the dropped ones took)
+				wv := &c10Wide{Old: t, A: o1, Gone: []time.Time{t, o1}, At: t, Stamps: []time.Time{o1, t}}
+				if j%2 == 0 {
+					wv.Old, wv.A = o1.Truncate(time.Second), t
+				}
+				v = &c10Narrow{A: wv.A, At: wv.At, Stamps: wv.Stamps}
+				how = "sender's class has two more timestamp fields than the receiver's struct"
+				o.Stage = "encode"
+				o.Panic, _ = Guard(func() {
+					o.Wire, o.EncErr = hessian.ToBytes(wv, map[string]string{"c10Wide": "c10.Rec"})
+					if o.EncErr == nil {
+						o.Stage = "decode"
+						o.Dec, o.DecErr = hessian.ToObject(o.Wire, map[string]reflect.Type{"c10.Rec": reflect.TypeOf(c10Narrow{})})
+					}
+				})
+				res.Count("timestamps_behind_dropped_timestamp_fields", 1)
+			} else if classOnly {
 				o = classOnlyRoundTrip(v)
 				how = "nil name map / class-only type map"
 				res.Count("zero_timestamps_in_untyped_lists", 1)
